@@ -96,6 +96,34 @@ theorem inLoop_any {κ : Kind} {lv : Val N} (hl : kindOf lv = some κ) (vs : Lis
         | true => exact absurd (h0.2 he) hz
       simp [hz, this, ih']
 
+/-- **IN over a single-column sub-query**: when the right side is the list of rows of a sub-query,
+    each consisting of one column whose value has the kind of the left operand, `IN` is membership of
+    the left value among those column values — whatever the column is called -/
+theorem inLoop_subquery_rows {κ : Kind} {lv : Val N} (hl : kindOf lv = some κ) (cells : List (String × Val N))
+    (hv : ∀ c ∈ cells, kindOf c.2 = some κ) :
+    inLoop lv (cells.map fun c => Val.obj [c]) = .ok ((cells.map (·.2)).any (eqV lv)) := by
+  induction cells with
+  | nil => simp [inLoop]
+  | cons cell cells ih =>
+    obtain ⟨k, v⟩ := cell
+    have hk : kindOf v = some κ := hv (k, v) (by simp)
+    obtain ⟨c, hc, h0, -, -, -⟩ := compare_same_kind hl hk
+    have ih' := ih (fun w hw => hv w (by simp [hw]))
+    simp only [List.map_cons, inLoop, hc, bind, Except.bind, pure, Except.pure, List.any_cons]
+    by_cases hz : c = 0
+    · simp [hz, h0.1 hz]
+    · have : eqV lv v = false := by
+        cases he : eqV lv v with
+        | false => rfl
+        | true => exact absurd (h0.2 he) hz
+      simp [hz, this, ih']
+
+/-- a sub-query row with no or several columns on the right of IN is an error, never a guess (D50) -/
+theorem inLoop_multi_column_error (lv : Val N) (c1 c2 : String × Val N) (fs : List (String × Val N))
+    (rest : List (Val N)) :
+    inLoop lv (Val.obj (c1 :: c2 :: fs) :: rest) = .error .error ∧ inLoop lv (Val.obj [] :: rest) = .error .error := by
+  constructor <;> simp [inLoop]
+
 theorem notInLoop_any {κ : Kind} {lv : Val N} (hl : kindOf lv = some κ) (vs : List (Val N))
     (hv : ∀ v ∈ vs, kindOf v = some κ) : notInLoop lv vs = .ok (!vs.any (eqV lv)) := by
   induction vs with
